@@ -156,6 +156,7 @@ def gen_program(rng, profile, index=None):
             # (2) the wrapped callable may be an ordinary function returning an awaitable that is not a coroutine
             'func_form': _w(rng, [('async', 6), ('returns_task', 2), ('returns_future', 1)]),
             'form': _w(rng, [('direct', 5), ('deco', 3), ('bare', 2)]) if T_real == 1.0 else _w(rng, [('direct', 6), ('deco', 4)])}
+    prog['driver'] = 'pre' if rng.random() < 0.35 else 'seq'
     if base == 'c03' and rng.random() < 0.3:
         prog['final'] = 'sleep'         # no closing wait(): "eventually" must not depend on somebody waking the loop
     if base in ('c03', 'c08') and rng.random() < 0.3:
@@ -483,17 +484,29 @@ class BufferWorld:
         self.phase = 'program'
         wtasks = []
         sd = p.get('shutdown_at')
-        for op in p['ops']:
-            if sd is not None and op['at'] > sd:
-                break
-            if op['at'] > loop.time():
-                await asyncio.sleep(op['at'] - loop.time())
+
+        def run_op(op):
             if op['op'] == 'wait':
                 wtasks.append(loop.create_task(self.do_wait('owner', op)))
             elif op['op'] == 'call_wait':
                 wtasks.append(loop.create_task(self.call_then_wait(op)))
             else:
                 self.submit('owner', op)
+        ops = [op for op in p['ops'] if sd is None or op['at'] <= sd]
+        if p.get('driver') == 'pre':
+            # every operation is a timer registered before the buffer arms any of its own: at an exact tie between a
+            # submission and the quiet timer the submission is processed first (the sequential driver gives the other order)
+            for op in ops:
+                loop.call_at(op['at'], run_op, op)
+            last = max([op['at'] for op in ops] + [0.0])
+            if last > loop.time():
+                await asyncio.sleep(last - loop.time())
+            await asyncio.sleep(0)
+            ops = []
+        for op in ops:
+            if op['at'] > loop.time():
+                await asyncio.sleep(op['at'] - loop.time())
+            run_op(op)
         if sd is not None:
             if sd > loop.time():
                 await asyncio.sleep(sd - loop.time())
